@@ -247,7 +247,7 @@ func gen(t *rapid.T) Case {
 		touchedP := map[uint32]bool{}
 		nr := rapid.IntRange(1, 4).Draw(t, "nrules")
 		for j := 0; j < nr; j++ {
-			switch rapid.SampledFrom([]string{"createurr", "createurr+pdr", "removeurr", "query", "createpdr", "removepdr", "updatepdr", "updatepdr", "updatepdr"}).Draw(t, "rule") {
+			switch rapid.SampledFrom([]string{"createurr", "createurr+pdr", "removeurr", "query", "queryremove", "createpdr", "removepdr", "updatepdr", "updatepdr", "updatepdr"}).Draw(t, "rule") {
 			case "createurr", "createurr+pdr":
 				u := uint32(rapid.IntRange(1, 4).Draw(t, "urr"))
 				if urr[u] || urrOp[u] || touched[u] {
@@ -275,6 +275,21 @@ func gen(t *rapid.T) Case {
 				}
 				urrOp[u], touched[u] = true, true
 				rules = append(rules, stack.RuleOp{Verb: "query", Kind: "URR", ID: u})
+			case "queryremove":
+				// one message queries a URR and removes it: the removal's termination report is due once (whether an
+				// immediate report comes as well is not asserted)
+				u := uint32(rapid.IntRange(1, 4).Draw(t, "urr"))
+				if !urr[u] || urrOp[u] || touched[u] {
+					continue
+				}
+				delete(urr, u)
+				urrOp[u], touched[u] = true, true
+				q, rm := stack.RuleOp{Verb: "query", Kind: "URR", ID: u}, stack.RuleOp{Verb: "remove", Kind: "URR", ID: u}
+				if rapid.Bool().Draw(t, "queryfirst") {
+					rules = append(rules, q, rm)
+				} else {
+					rules = append(rules, rm, q)
+				}
 			case "createpdr":
 				p := uint32(rapid.IntRange(1, 4).Draw(t, "pdr"))
 				if _, ok := pdr[p]; ok || touchedP[p] {
@@ -464,6 +479,13 @@ func run(c Case) (v *vcore.Violation, stt stats) {
 					}
 				}
 				return vcore.Violatef(key, "message %d %s: termination reports %s, expected %s", i, briefRules(ev.Rules), show(gotT), show(wantT)), stt
+			}
+			for _, ru := range ev.Rules {
+				if ru.Kind == "URR" && ru.Verb == "remove" {
+					// queried and removed by the same message: the immediate report is not asserted either way
+					delete(gotI, ru.ID)
+					delete(wantI, ru.ID)
+				}
 			}
 			if !eq(gotI, wantI) {
 				return vcore.Violatef("immer", "message %d %s: immediate reports %s, expected %s", i, briefRules(ev.Rules), show(gotI), show(wantI)), stt
